@@ -165,7 +165,7 @@ fn full_response(r: &Req, bconn: usize) -> (Vec<u8>, Vec<u8>, usize) {
     }
     let mut wire_body = Vec::new();
     match r.shape.as_str() {
-        "cl" => {
+        "cl" | "cl103" | "cl103p" => {
             head.extend_from_slice(format!("Content-Length: {}\r\n", body.len()).as_bytes());
             wire_body.extend_from_slice(&body);
         }
@@ -185,6 +185,11 @@ fn full_response(r: &Req, bconn: usize) -> (Vec<u8>, Vec<u8>, usize) {
         }
     }
     head.extend_from_slice(b"\r\n");
+    if r.shape == "cl103" || r.shape == "cl103p" {
+        let mut v = b"HTTP/1.1 103 Early Hints\r\nLink: </style.css>; rel=preload\r\n\r\n".to_vec();
+        v.extend_from_slice(&head);
+        head = v;
+    }
     let hl = head.len();
     head.extend_from_slice(&wire_body);
     (head, body, hl)
@@ -328,7 +333,17 @@ fn serve_conn(
         *hits.lock().unwrap().entry(req.i).or_insert(0) += 1;
         served.lock().unwrap().push((req.i, serial));
         let bytes = sent_prefix(&req, serial);
-        if !bytes.is_empty() && conn.write_all(&bytes, Duration::from_secs(5)).is_err() {
+        if req.shape == "cl103p" {
+            // the interim response in its own segment, the final one a moment later
+            let cut = find(&bytes, b"\r\n\r\n").map(|p| p + 4).unwrap_or(0);
+            if conn.write_all(&bytes[..cut], Duration::from_secs(5)).is_err() {
+                return;
+            }
+            thread::sleep(Duration::from_millis(120));
+            if conn.write_all(&bytes[cut..], Duration::from_secs(5)).is_err() {
+                return;
+            }
+        } else if !bytes.is_empty() && conn.write_all(&bytes, Duration::from_secs(5)).is_err() {
             return;
         }
         match req.end.as_str() {
@@ -516,7 +531,7 @@ struct Obs {
 
 /// read one response with a deadline; never blocks past `deadline`
 fn observe(conn: &mut Client, t0: Instant, deadline: Duration, linger: Duration) -> Obs {
-    let base = conn.parsed();
+    let mut base = conn.parsed();
     let mut o = Obs { framing: "none".into(), end: "open".into(), ..Default::default() };
     let until = t0 + deadline;
     let left = |u: Instant| u.saturating_duration_since(Instant::now());
@@ -566,6 +581,17 @@ fn observe(conn: &mut Client, t0: Instant, deadline: Duration, linger: Duration)
                     } else {
                         o.malformed = Some(format!("field line {l:?}"));
                     }
+                }
+                if matches!(o.status, Some(100..=199)) {
+                    // an interim response: no body, the final response follows on the connection
+                    o.informational += 1;
+                    base += p + 4;
+                    head_end = None;
+                    o.head_complete = false;
+                    o.status = None;
+                    cl = None;
+                    chunked = false;
+                    continue;
                 }
                 if chunked && cl.is_some() {
                     o.malformed = Some("both content-length and chunked".into());
@@ -793,8 +819,14 @@ fn property_allows(r: &Req, first_on_conn: bool, tls: bool) -> Vec<&'static str>
 fn known_defect(r: &Req, kind: &str, o: &Obs) -> Option<&'static str> {
     let cut_partial = matches!(r.cut.as_str(), "hdrend" | "body" | "chunkline" | "beforelast");
     let ended = r.end == "close" || r.end == "reset";
+    if is_flt(r) && complete_req(r) && r.shape == "cl103" && kind == "default:504" {
+        return Some("final-response-coalesced-with-1xx-lost");
+    }
     if !is_flt(r) || !complete_req(r) || !ended {
         return None;
+    }
+    if r.shape == "cl103" && kind == "default:504" {
+        return Some("final-response-coalesced-with-1xx-lost");
     }
     if r.shape == "cl" && r.conn == "close" && cut_partial
         && matches!(kind, "corrupt" | "abort-corrupt" | "truncated-as-complete" | "truncated-open")
@@ -1199,6 +1231,10 @@ impl Area for Faults {
             q.client = client.into();
             v.push(ops_of(&s, &[q, plain(1, "flt")]));
         }
+        // an interim 103 before the final response: still exactly one final answer, intact
+        v.push(ops_of(&s, &[f("cl103", "ka", "full", "keep"), plain(1, "flt")]));
+        v.push(ops_of(&s, &[f("cl103p", "ka", "full", "keep"), plain(1, "flt")]));
+        v.push(ops_of(&s, &[f("cl103p", "close", "full", "close"), plain(1, "flt")]));
         // requests that do not parse / lack what a request needs
         for client in ["http10", "junk"] {
             let mut q = plain(0, "flt");
@@ -1437,7 +1473,9 @@ impl Area for Faults {
             // arm the backend
             world.flt.plan.lock().unwrap().insert(r.i, r.clone());
             world.flt.late_ms.store(
-                if r.shape == "garbage" { 150 } else { setup.bt as usize * 1000 + 300 },
+                // well after the back timer even when sozu's thread runs late (the lag monitor voids
+                // requests that met a scheduling gap of more than 0.4 s)
+                if r.shape == "garbage" { 150 } else { setup.bt as usize * 1000 + 1200 },
                 Ordering::SeqCst,
             );
             world.flt.accept_close.store(
@@ -1689,7 +1727,8 @@ impl Area for Faults {
             };
             for (class, detail) in found {
                 // the consequences of a known defect are reported under its fingerprint
-                let consequence = (leak && (class == "stale-backend-connection-reused"
+                let consequence = (r.shape == "cl103" && class.starts_with("status-mismatch"))
+                    || (leak && (class == "stale-backend-connection-reused"
                     || class == "previous-answer-delivered-to-next-request"
                     || class.starts_with("status-mismatch")))
                     || class.starts_with("truncated-presented-complete")
